@@ -553,6 +553,9 @@ func runGated(c run.Ctx, res *core.CaseResult, prop string) *core.CaseResult {
 	var u gen.Universe
 	for {
 		u = gen.MakeUniverse(r, cfg.Primary, 5+r.IntN(4))
+		if len(u.Keys) < 3 {
+			continue // (the generator may drop keys; the scripts address at least three)
+		}
 		if prop != "" {
 			// these scripts lay records out in files of a few hundred bytes: keys must fit several times
 			long := false
